@@ -207,7 +207,7 @@ SLICES = [
         "within": r"^impl std::fmt::Display for Game \{",
         "header": "impl Game { pub(crate) fn verif_display_cell(&self, i: i8, j: i8) -> char",
         "regions": [
-            {"start": r"^\s*let position = Position::new_assert\(i, j\);", "end": ("line",)},
+            {"start": r"^\s*let position = Position::new", "end": ("line",)},
             {"start": r"^\s*self\.get_position\(position\)\s*$", "end": ("until", r"^\s*\)\?;")},
         ],
         "post": "}",
